@@ -13,8 +13,8 @@ import (
 // also rejects anything the generator got wrong (counted and skipped, never a verdict).
 
 type bitW struct {
-	b   []byte
-	n   uint // bits written
+	b []byte
+	n uint // bits written
 }
 
 func (w *bitW) bits(v uint32, n int) {
